@@ -119,11 +119,14 @@ def conc_val(model, v):
     if isinstance(v, SliceV): return SliceV([conc_val(model, x) for x in v.items()])
     if isinstance(v, list): return [conc_val(model, x) for x in v]
     if isinstance(v, dict): return {k: conc_val(model, x) for k, x in v.items()}
+    if isinstance(v, tuple): return tuple(conc_val(model, x) for x in v)
     return v
 
 
 def native_panic(j):
     """native panic outcome -> PanicExc whose `fn` is the source file of the panic site"""
+    if j.get('file') in ('main.rs', 'asyncr.rs'):
+        raise RuntimeError('the replay binary itself failed on this case (harness defect, not a finding): ' + j.get('msg', ''))
     return ('panic', PanicExc(j.get('file') or 'native', 'panic', j.get('msg', '')))
 
 
